@@ -123,7 +123,17 @@ type Snap struct {
 	RowWidths [5]int
 }
 
-func snapInst(in *insts.Inst) Snap {
+func snapInst(in *insts.Inst) (out Snap) {
+	// an instruction object without format / table row (only possible if the
+	// decoder hands out objects it later resets) must not take the monitor down
+	defer func() {
+		if r := recover(); r != nil {
+			out = Snap{Format: "<broken instruction object>", Name: fmt.Sprint(r)}
+		}
+	}()
+	if in == nil || in.Format == nil || in.InstType == nil {
+		return Snap{Format: "<instruction object without format/type>"}
+	}
 	s := Snap{
 		Format: in.FormatName, Opcode: int(in.Opcode), Name: in.InstName, Size: in.ByteSize,
 		Abs: in.Abs, Omod: in.Omod, Neg: in.Neg, OpSel: in.OpSel, OpSelHi: in.OpSelHi,
